@@ -438,3 +438,62 @@ func ruleFailFast(r *Run) {
 	}
 	r.AtLeast(rule, "error tests inside the depth loop", n, 2)
 }
+
+// ruleStitchVariable (R13g): the variable the planner wraps child steps in (`node(id: $id)`)
+// is the variable the executor fills with the entity id and keys de-duplication on.
+func ruleStitchVariable(r *Run) {
+	const rule = "R13g"
+	conv := r.Anchor(rule, "planner.convertSelectionSetToNodeQuery")
+	getv := r.Anchor(rule, "executor.(*DepthExecutor).getVariables")
+	setm := r.Anchor(rule, "executor.(*DepthExecutor).setIMap")
+	if conv == nil || getv == nil || setm == nil {
+		return
+	}
+	var planned, argName, filled, looked []string
+	for _, ins := range allInstrs(conv) {
+		st, ok := ins.(*ssa.Store)
+		if !ok {
+			continue
+		}
+		fa, ok := st.Addr.(*ssa.FieldAddr)
+		if !ok || fieldOf(fa) == nil {
+			continue
+		}
+		k, isConst := st.Val.(*ssa.Const)
+		if !isConst || k.Value == nil {
+			continue
+		}
+		owner := namedOf(fa.X.Type())
+		switch {
+		case strings.HasSuffix(owner, "ast.Value") && fieldOf(fa).Name() == "Raw":
+			planned = append(planned, strings.Trim(k.Value.ExactString(), `"`))
+		case strings.HasSuffix(owner, "ast.Argument") && fieldOf(fa).Name() == "Name":
+			argName = append(argName, strings.Trim(k.Value.ExactString(), `"`))
+		}
+	}
+	for _, ins := range allInstrs(getv) {
+		if mu, ok := ins.(*ssa.MapUpdate); ok && dependsOnField(mu.Value, "ID") {
+			if k, ok := mu.Key.(*ssa.Const); ok && k.Value != nil {
+				filled = append(filled, strings.Trim(k.Value.ExactString(), `"`))
+			}
+		}
+	}
+	for _, ins := range allInstrs(setm) {
+		if lk, ok := ins.(*ssa.Lookup); ok {
+			if k, ok := lk.Index.(*ssa.Const); ok && k.Value != nil {
+				looked = append(looked, strings.Trim(k.Value.ExactString(), `"`))
+			}
+		}
+	}
+	ok := len(planned) == 1 && len(filled) == 1 && len(looked) >= 1 && planned[0] == filled[0]
+	for _, l := range looked {
+		if len(planned) == 1 && l != planned[0] {
+			ok = false
+		}
+	}
+	r.Check(ok, rule, fnName(getv), "stitched id variable agrees", r.P.pos(getv.Pos()),
+		"planner uses $"+strings.Join(planned, ",")+" in node(id: …); the executor stores the entity id under the same name and de-duplicates on it",
+		"the variable name the planner puts into `node(id: $…)` ("+strings.Join(planned, ",")+"), the name the executor stores the entity id under ("+strings.Join(filled, ",")+") and the name de-duplication looks up ("+strings.Join(looked, ",")+") differ: child steps are sent without their id")
+	okArg := len(argName) == 1 && argName[0] == "id"
+	r.Check(okArg, rule, fnName(conv), "node argument name", r.P.pos(conv.Pos()), "the wrapper calls node(id: …)", "the node wrapper no longer passes the argument `id` required by the Relay Node field")
+}
